@@ -1,5 +1,6 @@
 import Huginn.Spec.HttpFlow
 import Huginn.Lemmas.HttpFlowKey
+import Huginn.Lemmas.HttpFlowRun
 /-
 C09 — HTTP stream reassembly is invariant to segmentation, sequence origin and order.
 Property theorems only; helper lemmas live in Huginn/Lemmas/HttpFlow*.lean.
@@ -166,6 +167,123 @@ def FullReassembly : Prop :=
     totalLen (segsOf true ds) ≤ maxBufferedHeadBytes → totalLen (segsOf false ds) ≤ maxBufferedHeadBytes →
     run P [] (c.packets ds) = specConn P c ds
 
+/-! ### reassembly: what is proved -/
+
+/-- **reassembly_of_agreement.** Control flow is right unconditionally: for every connection, every
+segmentation, every initial sequence numbers and every arrival order, *if* at each arrival the parsers
+judge the bytes the analyzer assembled like the true stream (`Agrees`), the reports — which packet,
+which direction, at most once, never before the head is complete — are exactly the specified ones.
+Everything C09 can lose is therefore in the assembled bytes (`get_full_data`), see the witnesses. -/
+theorem reassembly_of_agreement (P : Parsers ρ σ) (hm : MinLen P) (c : Conn) (ds : List DataPkt)
+    (hne : c.client ≠ c.client.rev) (hpl : PlainData ds)
+    (hcC : totalLen (segsOf true ds) ≤ maxBufferedHeadBytes)
+    (hcS : totalLen (segsOf false ds) ≤ maxBufferedHeadBytes)
+    (hag : Agrees P c [] [] ds) :
+    run P [] (c.packets ds) = specConn P c ds := by
+  obtain ⟨m, hrel, hrun⟩ := handshake P c hne
+  rw [packets_eq, hrun]
+  unfold specConn
+  congr 2
+  exact run_sim P hm c hne ds m {} hrel hpl hag (by simpa [totalLen] using hcC) (by simpa [totalLen] using hcS)
+
+private theorem noWrap_mono {isn : Nat} {a b : List Seg} (h : NoWrap isn (a ++ b)) : NoWrap isn a :=
+  fun s hs => h s (by simp [hs])
+
+private theorem agrees_of_inorder (P : Parsers ρ σ) (c : Conn) :
+    ∀ (ds : List DataPkt) (accC accS : List Seg),
+      tilesFrom c.isnC 0 (accC ++ segsOf true ds) = true → NoWrap c.isnC (accC ++ segsOf true ds) →
+      (∀ s ∈ accC, s.data ≠ []) →
+      tilesFrom c.isnS 0 (accS ++ segsOf false ds) = true → NoWrap c.isnS (accS ++ segsOf false ds) →
+      (∀ s ∈ accS, s.data ≠ []) →
+      Agrees P c accC accS ds
+  | [], _, _, _, _, _, _, _, _ => trivial
+  | d :: ds, accC, accS, tC, wC, nC, tS, wS, nS => by
+    unfold Agrees
+    rw [segsOf_cons] at tC wC tS wS
+    cases he : d.payload.isEmpty with
+    | true =>
+      simp only [if_true]
+      simp only [he, Bool.not_true, Bool.and_false, Bool.false_eq_true, if_false] at tC wC tS wS
+      exact agrees_of_inorder P c ds accC accS tC wC nC tS wS nS
+    | false =>
+      have hdne : d.payload ≠ [] := by intro e; rw [e] at he; simp at he
+      simp only [Bool.false_eq_true, if_false]
+      cases hd : d.fromClient with
+      | true =>
+        simp only [if_true]
+        simp only [hd, he, beq_self_eq_true, Bool.not_false, Bool.and_self, if_true, Bool.true_and] at tC wC
+        have hS : (true == false && true) = false := rfl
+        simp only [hd, he, Bool.not_false, hS, Bool.false_eq_true, if_false] at tS wS
+        have e : accC ++ segOf d :: segsOf true ds = (accC ++ [segOf d]) ++ segsOf true ds := by simp
+        rw [e] at tC wC
+        have nC' : ∀ s ∈ accC ++ [segOf d], s.data ≠ [] := by
+          intro s hs; simp only [List.mem_append, List.mem_singleton] at hs
+          rcases hs with hs | rfl
+          · exact nC s hs
+          · exact hdne
+        refine ⟨?_, agrees_of_inorder P c ds _ accS tC wC nC' tS wS nS⟩
+        have t1 : tilesFrom c.isnC 0 (accC ++ [segOf d]) = true := by
+          rw [tilesFrom_append] at tC; simp only [Bool.and_eq_true] at tC; exact tC.1
+        rw [show (⟨d.seq, d.payload⟩ : Seg) = segOf d from rfl,
+          fullData_eq_stream c.isnC _ t1 (noWrap_mono wC) nC']
+      | false =>
+        simp only [Bool.false_eq_true, if_false]
+        have hC : (false == true && true) = false := rfl
+        simp only [hd, he, Bool.not_false, hC, Bool.false_eq_true, if_false] at tC wC
+        simp only [hd, he, beq_self_eq_true, Bool.not_false, Bool.and_self, if_true] at tS wS
+        have e : accS ++ segOf d :: segsOf false ds = (accS ++ [segOf d]) ++ segsOf false ds := by simp
+        rw [e] at tS wS
+        have nS' : ∀ s ∈ accS ++ [segOf d], s.data ≠ [] := by
+          intro s hs; simp only [List.mem_append, List.mem_singleton] at hs
+          rcases hs with hs | rfl
+          · exact nS s hs
+          · exact hdne
+        refine ⟨?_, agrees_of_inorder P c ds accC _ tC wC nC tS wS nS'⟩
+        have t1 : tilesFrom c.isnS 0 (accS ++ [segOf d]) = true := by
+          rw [tilesFrom_append] at tS; simp only [Bool.and_eq_true] at tS; exact tS.1
+        rw [show (⟨d.seq, d.payload⟩ : Seg) = segOf d from rfl,
+          fullData_eq_stream c.isnS _ t1 (noWrap_mono wS) nS']
+
+/-- **reassembly_partial.** For every parser pair, every connection, every division of the two
+byte streams into any number of segments of any sizes, every pair of initial sequence numbers
+(`NoWrap`: no segment reaches across 2^32) and every interleaving of the two directions in which each
+direction's segments arrive in stream order without loss or repetition (`AlwaysContiguous`), the
+analyzer's reports are exactly those of the reassembled streams. The three excluded classes are the
+known findings below. -/
+theorem reassembly_partial (P : Parsers ρ σ) (hm : MinLen P) (c : Conn) (ds : List DataPkt)
+    (hne : c.client ≠ c.client.rev) (hpl : PlainData ds)
+    (hcC : totalLen (segsOf true ds) ≤ maxBufferedHeadBytes)
+    (hcS : totalLen (segsOf false ds) ≤ maxBufferedHeadBytes)
+    (k1 : ¬ KF.C09.seqWrap c ds) (k2 : ¬ KF.C09.duplicateSegment c ds) (k3 : ¬ KF.C09.gapAssembly c ds) :
+    run P [] (c.packets ds) = specConn P c ds := by
+  have wC : NoWrap c.isnC (segsOf true ds) := by
+    by_cases h : NoWrap c.isnC (segsOf true ds)
+    · exact h
+    · exact absurd (Or.inl h) k1
+  have wS : NoWrap c.isnS (segsOf false ds) := by
+    by_cases h : NoWrap c.isnS (segsOf false ds)
+    · exact h
+    · exact absurd (Or.inr h) k1
+  have oC : hasOverlap c.isnC (segsOf true ds) = false := by
+    cases h : hasOverlap c.isnC (segsOf true ds) with
+    | false => rfl
+    | true => exact absurd (Or.inl h) k2
+  have oS : hasOverlap c.isnS (segsOf false ds) = false := by
+    cases h : hasOverlap c.isnS (segsOf false ds) with
+    | false => rfl
+    | true => exact absurd (Or.inr h) k2
+  have tC : tilesFrom c.isnC 0 (segsOf true ds) = true := by
+    cases h : tilesFrom c.isnC 0 (segsOf true ds) with
+    | true => rfl
+    | false => exact absurd (Or.inl ⟨oC, h⟩) k3
+  have tS : tilesFrom c.isnS 0 (segsOf false ds) = true := by
+    cases h : tilesFrom c.isnS 0 (segsOf false ds) with
+    | true => rfl
+    | false => exact absurd (Or.inr ⟨oS, h⟩) k3
+  exact reassembly_of_agreement P hm c ds hne hpl hcC hcS
+    (agrees_of_inorder P c ds [] [] (by simpa using tC) (by simpa using wC) (by simp)
+      (by simpa using tS) (by simpa using wS) (by simp))
+
 /-- a toy parser pair for the witnesses: a head is complete when the bytes end in LF LF -/
 private def toy : Parsers Bytes Bytes :=
   { request := fun d => if d.length ≥ 4 ∧ d.reverse.take 2 = [10, 10] then some d else none,
@@ -210,6 +328,26 @@ example : KF.C09.duplicateSegment wDup.1 wDup.2 ∧ ¬ KF.C09.seqWrap wDup.1 wDu
 
 /-- non-vacuity of the two unconditional theorems: a run that opens a flow and reports once -/
 example : (trace toy [] (wGap.1.packets [⟨true, 1001, 24, [97, 97, 10, 10]⟩, ⟨true, 1005, 24, [97, 97, 10, 10]⟩])).length = 2 := by
+  decide +kernel
+
+/-- non-vacuity of `reassembly_partial`: a connection in 2 + 2 segments, client ISN 2^32 − 1 (the
+first data byte has sequence number 0), satisfying every hypothesis; both heads are reported -/
+private def wOk : Conn × List DataPkt :=
+  (⟨k0, 4294967295, 7⟩, [⟨true, 0, 24, [97, 97]⟩, ⟨false, 8, 24, [98, 98, 10]⟩, ⟨true, 2, 24, [10, 10]⟩,
+    ⟨false, 11, 24, [10]⟩])
+
+example : MinLen toy ∧ wOk.1.client ≠ wOk.1.client.rev ∧ PlainData wOk.2 ∧ ¬ KF.C09.seqWrap wOk.1 wOk.2 ∧
+    ¬ KF.C09.duplicateSegment wOk.1 wOk.2 ∧ ¬ KF.C09.gapAssembly wOk.1 wOk.2 := by
+  refine ⟨⟨?_, ?_⟩, by decide, by decide +kernel, by decide +kernel, by decide +kernel, by decide +kernel⟩ <;>
+  · intro d r h
+    unfold toy at h
+    simp only at h
+    split at h
+    · rename_i hc; exact hc.1
+    · simp at h
+
+example : specConn toy wOk.1 wOk.2 =
+    [(none, none), (none, none), (none, none), (none, none), (some [97, 97, 10, 10], none), (none, some [98, 98, 10, 10])] := by
   decide +kernel
 
 end Huginn.Props.C09
